@@ -78,6 +78,10 @@ type scheduler struct {
 	draining bool
 	nchan    int
 	gpanic   []string // panics that killed non-main goroutines
+	yielded  []*goroutine
+	quantum  int64 // >0: preemptive time slices of this many steps
+	sliceEnd int64
+	rotate   int // id of the goroutine preempted last (round robin)
 }
 
 func newScheduler(i *interpreter) *scheduler {
@@ -98,11 +102,31 @@ func (s *scheduler) pickNext() *goroutine {
 			cand = append(cand, g)
 		}
 	}
+	if len(cand) == 0 && len(s.yielded) > 0 {
+		for _, g := range s.yielded {
+			if g.state == gBlocked && g.blockedOn == "yield" {
+				g.state = gRunnable
+				if !(s.draining && g == s.main) {
+					cand = append(cand, g)
+				}
+			}
+		}
+		s.yielded = nil
+	}
 	if len(cand) == 0 {
 		if s.draining && s.main.state == gRunnable {
 			return s.main
 		}
 		return nil
+	}
+	if s.quantum > 0 && len(cand) > 1 {
+		// round robin: first candidate with an id above the one preempted last
+		for _, g := range cand {
+			if g.id > s.rotate {
+				return g
+			}
+		}
+		return cand[0]
 	}
 	if len(cand) > 1 && s.i.cfg.SchedChoices > 0 && s.i.schedChoicesUsed < s.i.cfg.SchedChoices {
 		s.i.schedChoicesUsed++
@@ -141,10 +165,38 @@ func (s *scheduler) park(why string) {
 	s.reschedule(me)
 }
 
-// yield gives other runnable goroutines a chance (Gosched).
+// yield gives other runnable goroutines a chance (Gosched): the caller runs
+// again only after the others have blocked, finished or been preempted.
 func (s *scheduler) yield() {
 	me := s.cur
+	others := false
+	for _, g := range s.gs {
+		if g != me && g.state == gRunnable {
+			others = true
+		}
+	}
+	if !others {
+		return
+	}
+	me.state = gBlocked
+	me.blockedOn = "yield"
+	s.yielded = append(s.yielded, me)
+	s.reschedule(me)
+}
+
+// preempt is called at block boundaries when a time slice is active.
+func (s *scheduler) preempt() {
+	s.sliceEnd = s.i.path.steps + s.quantum
+	// everybody who yielded becomes runnable again
+	for _, g := range s.yielded {
+		if g.state == gBlocked && g.blockedOn == "yield" {
+			g.state = gRunnable
+		}
+	}
+	s.yielded = nil
+	me := s.cur
 	me.state = gRunnable
+	s.rotate = me.id
 	s.reschedule(me)
 }
 
